@@ -2,6 +2,7 @@ package main
 
 import (
 	"bytes"
+	"os"
 	"encoding/hex"
 	"encoding/json"
 	"fmt"
@@ -156,6 +157,66 @@ func c19CopyBoundaries(c *Ctx) {
 	}
 }
 
+// c19InstanceIdEdges: the copied instance's numeric id sits at a byte boundary (low byte 0xFF, two low bytes 0xFFFF):
+// a server configured to hand out instance ids from there; the copy (flattened and with all versions) must read
+// like the source.
+func c19InstanceIdEdges(c *Ctx) {
+	starts := []string{"255", "65535", "511"}
+	if c.Thorough {
+		starts = append(starts, "16777215", "254", "256", "65534")
+	}
+	for _, start := range starts {
+		func() {
+			dir := scratchDir("c19i")
+			defer os.RemoveAll(dir)
+			ch, msg := StartChild(dir, []string{"VERIF_IID_START=" + start})
+			if ch == nil {
+				c.Report("H", "C19 child-start", msg, "")
+				return
+			}
+			defer ch.Kill()
+			resp, _ := ch.HTTP("POST", "repos", []byte(`{"alias":"i","description":"d"}`))
+			root := jsonField(resp.Body, "root")
+			ch.HTTP("POST", "repo/"+root+"/instance", []byte(`{"typename":"keyvalue","dataname":"kv"}`))
+			iid, _ := ch.Ask("IID " + root + " kv")
+			for i := 0; i < 12; i++ {
+				ch.HTTP("POST", fmt.Sprintf("node/%s/kv/key/k%02d", root, i), []byte(fmt.Sprintf("root-%d", i)))
+			}
+			ch.HTTP("POST", "node/"+root+"/commit", []byte(`{"note":"c"}`))
+			vr, _ := ch.HTTP("POST", "node/"+root+"/newversion", []byte(`{"note":"v"}`))
+			child := jsonField(vr.Body, "child")
+			ch.HTTP("DELETE", "node/"+child+"/kv/key/k03", nil)
+			ch.HTTP("POST", "node/"+child+"/kv/key/k05", []byte("child-5"))
+			ch.HTTP("POST", "node/"+child+"/kv/key/zz", []byte("child-zz"))
+			for _, mode := range []string{"flatten", "all"} {
+				tgt := "kv" + mode
+				if out, _ := ch.Ask(fmt.Sprintf("COPY %s kv %s %s", child, tgt, mode)); !strings.HasPrefix(out, "ok") {
+					c.Report("O", "C19 copy-fails kv idedge", "CopyInstance fails: "+out, "source instance id "+iid)
+					continue
+				}
+				c.Eval("copy source-id "+strings.TrimSpace(iid)+" "+mode, true)
+				c.Count("copy-id-edge-" + mode)
+				vers := []string{child}
+				if mode == "all" {
+					vers = append(vers, root)
+				}
+				for _, u := range vers {
+					for _, path := range []string{"keys", "key/k00", "key/k03", "key/k05", "key/zz", "keyrangevalues/a/zzz?json=true"} {
+						a, _ := ch.HTTP("GET", "node/"+u+"/kv/"+path, nil)
+						b, _ := ch.HTTP("GET", "node/"+u+"/"+tgt+"/"+path, nil)
+						if a.Code != b.Code || (a.OK() && string(a.Body) != string(b.Body)) {
+							c.Report("O", "C19 copy-differs idedge "+mode, "a read from a copy of an instance differs from the same read from the source",
+								fmt.Sprintf("server handing out instance ids from %s: keyvalue instance kv has id %s; 12 keys at the root, committed; child: k03 deleted, k05 overwritten, zz added\nCopyInstance(child, kv -> %s, transmit=%s)\nGET %s at %s\n  source: %s\n  copy:   %s",
+									start, strings.TrimSpace(iid), tgt, mode, path, map[bool]string{true: "the child", false: "the root"}[u == child], a, b))
+							return
+						}
+					}
+				}
+			}
+		}()
+	}
+}
+
 // c19CopyThenRestart: instances with non-default settings (background value, block size) are copied and the
 // datastore is closed and reopened right after the copy, with no other metadata change in between; the copy must
 // still read like the source at every version
@@ -227,6 +288,7 @@ func runC19(c *Ctx) {
 	quietLogs()
 	c19CopyBoundaries(c)
 	c19CopyThenRestart(c)
+	c19InstanceIdEdges(c)
 	worlds := 2
 	steps := 60
 	if c.Thorough {
